@@ -12,6 +12,7 @@ fn main() {
     let cmd = args.get(1).map(|s| s.as_str()).unwrap_or("eval");
     match cmd {
         "eval" => eval(),
+        "disasm" => disasm(),
         other => {
             eprintln!("vh: unknown command {other}");
             std::process::exit(2)
@@ -47,6 +48,33 @@ fn eval() {
                     "?".to_string()
                 };
                 println!("=> panic {}", msg.lines().next().unwrap_or(""));
+            }
+        }
+    }
+}
+
+/// `vh disasm`: evaluate every piece but the last, then print the bytecode listing of the last one.
+fn disasm() {
+    let mut src = String::new();
+    std::io::stdin().read_to_string(&mut src).unwrap();
+    let mut engine = steel::steel_vm::engine::Engine::new();
+    let pieces: Vec<String> = src.split("\n;;;---\n").map(|s| s.to_string()).collect();
+    for (i, piece) in pieces.iter().enumerate() {
+        if i + 1 < pieces.len() {
+            if let Err(e) = engine.compile_and_run_raw_program(piece.clone()) {
+                println!("=> err {}", e);
+            }
+        } else {
+            match engine.emit_raw_program_no_path(piece.clone()) {
+                Ok(p) => match engine.debug_build_strings(p) {
+                    Ok(v) => {
+                        for s in v {
+                            println!("{}\n----", s);
+                        }
+                    }
+                    Err(e) => println!("=> err {}", e),
+                },
+                Err(e) => println!("=> err {}", e),
             }
         }
     }
